@@ -167,7 +167,7 @@ Definition ex_cfg : config :=
   mkCfg VFixed false 2%nat [USend 1; USend 2; USend 3]
         (fun x => if Z.eqb x 2 then [UWrite 20; UCancel (Some 7)]
                   else if Z.eqb x 3 then [UWrite 30; UPanic 9] else [UWrite 10; UWrite 11])
-        [URecvAll; UWrite 777].
+        [URecvAll; UWrite 777] false.
 Definition ex_sched : list label :=
   (fix rep n l := match n with O => [] | S k => l ++ rep k l end) 40%nat
     [LGen; LExec false; LExec true; LMap 0; LMap 1; LMap 2; LRed; LMain BOut; LMain BPanic].
@@ -195,7 +195,7 @@ Proof. vm_compute. repeat split; reflexivity. Qed.
    the pipe and writes one value; a fair round-robin schedule ends in a terminal state *)
 Definition q_cfg : config :=
   mkCfg VFixed false 2%nat [USend 1; USend 2; USend 3] (fun x => [UWrite (10 * x); UWrite (10 * x + 1)])
-        [URecvAll; UWrite 777].
+        [URecvAll; UWrite 777] false.
 Example q_cfg_quiet : quiet_cfg q_cfg.
 Proof. repeat split; reflexivity. Qed.
 Example q_run :
